@@ -3,6 +3,7 @@ package c01
 
 import (
 	"fmt"
+	"os"
 	"regexp"
 	"strings"
 	"time"
@@ -370,6 +371,14 @@ func run(c Case) ev.Verdict {
 		}
 
 		if r.Result != want {
+			if os.Getenv("DBG_CASE") != "" {
+				for _, e := range pipe.Events() {
+					if e.Kind == "r" && strings.Contains(e.Data, "\x1b") {
+						fmt.Printf("EVT %s %q\n", e.Kind, e.Data)
+					}
+				}
+			}
+
 			return ev.Fail("command %d %q: result %q, want %q", i, cmds[i], r.Result, want)
 		}
 
